@@ -14,7 +14,7 @@ reach while `d` is still possibly NULL?
 
 No aliasing (`w = d; w->m`) and no field sensitivity: what is reported is a dereference through `d` itself.
 """
-from ir import strip
+from ir import strip, walk
 
 STR_FNS = {"strcmp": (0, 1), "strcpy": (0, 1), "strlen": (0,), "strcat": (0, 1), "strncmp": (0, 1), "strncpy": (0, 1),
            "strdup": (0,), "strchr": (0,), "strrchr": (0,), "strstr": (0, 1), "strcasecmp": (0, 1), "fputs": (0, 1),
@@ -238,6 +238,76 @@ class Nullness:
                     work.append((s, 0))
         hits.sort(key=lambda h: (h[0].get("l", 0), h[0].get("c", 0)))
         return hits
+
+
+def three_nn(n, d):
+    """value of `n` as a condition under d != NULL: True / False / None (unknown)"""
+    if n is None:
+        return None
+    k = n["k"]
+    if k in ("Cast", "DefaultArg", "DefaultInit") and n.get("ch"):
+        return three_nn(n["ch"][0], d)
+    if k == "Ref":
+        return True if n.get("d") == d else None
+    if k in ("Int", "Bool", "Char") and "val" in n:
+        return bool(n["val"])
+    ch = n.get("ch") or []
+    if k == "Unary" and n.get("op") == "!":
+        v = three_nn(ch[0], d)
+        return None if v is None else (not v)
+    if k == "Binary":
+        op = n.get("op")
+        if op in ("==", "!="):
+            for a, b in ((ch[0], ch[1]), (ch[1], ch[0])):
+                if _val_is(a, d) and _const(b) == 0:
+                    return op == "!="
+            return None
+        if op == "&&":
+            a, b = three_nn(ch[0], d), three_nn(ch[1], d)
+            return False if (a is False or b is False) else (True if (a and b) else None)
+        if op == "||":
+            a, b = three_nn(ch[0], d), three_nn(ch[1], d)
+            return True if (a is True or b is True) else (False if (a is False and b is False) else None)
+    return None
+
+
+def reaches_unassigned(f, d, target, nonnull=True, start=None):
+    """can control reach the node `target` from the entry of f without passing an assignment to the variable d, on a path
+    that is consistent with d != NULL (nonnull=True) or with d == NULL?"""
+    cfg = f.cfg
+    tpos = cfg.locate(target)
+    ev = three_nn if nonnull else three
+    seen = set()
+    work = [(cfg.entry, 0)] if start is None else [(start[0], start[1] + 1)]
+    while work:
+        b, i = work.pop()
+        blk = cfg.blocks[b]
+        killed = False
+        for j in range(i, len(blk["e"])):
+            if (b, j) == tuple(tpos):
+                return True
+            e = f.nodes.get(blk["e"][j])
+            for y in walk(e) if e is not None else []:
+                if y["k"] == "Assign" and y.get("op", "=") == "=" and _is(y["ch"][0], d):
+                    killed = True
+            if killed:
+                break
+        if killed:
+            continue
+        succ = list(cfg.succ[b])
+        raw = blk["s"]
+        tc = blk.get("tc")
+        if tc is not None and len(raw) == 2 and blk.get("tkind") != "SwitchStmt":
+            v = ev(f.nodes.get(tc), d)
+            if v is True:
+                succ = [x for x in succ if x == raw[0]]
+            elif v is False:
+                succ = [x for x in succ if x == raw[1]]
+        for x in succ:
+            if x not in seen:
+                seen.add(x)
+                work.append((x, 0))
+    return False
 
 
 def calls_under_null(f, d):
